@@ -176,24 +176,6 @@ class Parser:
 
         :param onlyrecord: tell to only record the new command into its parent.
         """
-        if self.__curcommand.must_follow is not None:
-            if not self.__curcommand.parent:
-                prevcmd = self.result[-1] if len(self.result) != 0 else None
-            else:
-                prevcmd = (
-                    self.__curcommand.parent.children[-2]
-                    if len(self.__curcommand.parent.children) >= 2
-                    else None
-                )
-            if prevcmd is None or prevcmd.name not in self.__curcommand.must_follow:
-                raise ParseError(
-                    "the %s command must follow an %s command"
-                    % (
-                        self.__curcommand.name,
-                        " or ".join(self.__curcommand.must_follow),
-                    )
-                )
-
         if not self.__curcommand.parent:
             # collect current amount of hash comments for later
             # parsing into names and desciptions
@@ -411,6 +393,20 @@ class Parser:
                 and command.has_arguments()
             ):
                 self.__set_expected("identifier")
+            if command.must_follow is not None:
+                if self.__curcommand is None:
+                    prevcmd = self.result[-1] if len(self.result) != 0 else None
+                else:
+                    prevcmd = (
+                        self.__curcommand.children[-1]
+                        if len(self.__curcommand.children) >= 1
+                        else None
+                    )
+                if prevcmd is None or prevcmd.name not in command.must_follow:
+                    raise ParseError(
+                        "the %s command must follow an %s command"
+                        % (command.name, " or ".join(command.must_follow))
+                    )
             if self.__curcommand is not None:
                 if not self.__curcommand.addchild(command):
                     raise ParseError(
